@@ -119,6 +119,34 @@ def seg_unit(v, seg, res, tier, only_leaf_children=False):
                          % (seg, v, w, r, list(p)))
                 else:
                     res.classes['same-child'] += 1
+        # creation paths that take the name as typed: a datatype object assigned by long name, the add_field helper
+        if ln and ln not in ('dup', 'reserved'):
+            from hl7apy.factories import datatype_factory
+            for how in ('datatype-object', 'add_field'):
+                if how == 'datatype-object' and not (fr.kind == 'leaf' and tables.is_base(v, fr.datatype)):
+                    continue
+                for lm, lname in (('long', ln), ('long-lower', ln.lower())):
+                    res.evaluations += 1
+                    res.transitions += 2
+                    try:
+                        s = new()
+                        n0 = len(s.children)
+                        if how == 'datatype-object':
+                            setattr(s, lname, datatype_factory(fr.datatype, lit, v))
+                        else:
+                            s.add_field(lname).value = lit
+                        got = [c.name for c in s.children][n0:]
+                        p = getattr(s, fr.name)
+                        ok = got == [fr.name] and len(p) == 1 and p[0].to_er7() == lit
+                    except Exception as e:
+                        viol('%s|%s|%s|%s|%s|%s' % (v, seg, fr.name, how, lm, exc_class(e)), '%s.%s (v%s) created through %s with the name %r raises %s: %s'
+                             % (seg, fr.name, v, how, lname, exc_class(e), e))
+                        continue
+                    res.validated += 1
+                    if not ok:
+                        viol('%s|%s|%s|%s|%s|wrong-child' % (v, seg, fr.name, how, lm), '%s (v%s): %s with the name %r created children %r' % (seg, v, how, lname, got))
+                    else:
+                        res.classes['same-child'] += 1
         for dm, d_ in spell:
             res.evaluations += 1
             res.transitions += 2
@@ -344,6 +372,21 @@ def retyped_field(res, v, seg, idx, fr, new, viol):
         named = getattr(f, '%s_1' % new_dt)
         posd = getattr(f, pos)
         ok = len(named) == 1 and len(posd) == 1 and named[0] is posd[0] and named[0].to_er7() == lit
+        # the long names follow the current datatype too (same datatype given to the constructor, and assigned)
+        from hl7apy.core import Field
+        row0 = tables.datatype_rows(v, new_dt)[0]
+        ln0 = row0.long_name
+        names_now = [r_.long_name for r_ in tables.datatype_rows(v, new_dt)]
+        if ok and ln0 and names_now.count(ln0) == 1 and ln0.upper() not in reserved('Field'):
+            for f2 in (f, Field(fr.name, datatype=new_dt, version=v)):
+                if f2 is not f:
+                    setattr(f2, '%s_1' % new_dt, lit)
+                by_long = getattr(f2, ln0.lower())
+                if not (len(by_long) == 1 and by_long[0] is getattr(f2, '%s_1' % new_dt)[0]):
+                    ok = False
+                setattr(f2, ln0.lower(), lit)
+                if [c.name for c in f2.children] != ['%s_1' % new_dt] or f2.to_er7() != lit:
+                    ok = False
     except Exception as x:
         viol('%s|%s|retyped|%s' % (v, seg, exc_class(x)), '%s (v%s): %s read positionally, retyped %s->%s, then %s written: %s: %s'
              % (seg, v, fr.name, fr.datatype, new_dt, pos, exc_class(x), x))
